@@ -24,6 +24,28 @@ CHECKS = {
    design_ref="6", note=GRID_NOTE),
 }
 
+SEQ_NOTE = ("Trusted base: the cfg-gated interception layer in clock-bound-shm/src/verif.rs (every atomic access, fence and record copy of reader.rs/writer.rs goes through it; a static scan and a run-time byte comparison refuse to judge (exit 2) code that bypasses it), "
+            "the memory-model simulator harness/src/seqmc/ra.rs (validated against 16 litmus programs with known C11 outcome sets on every run), the writer-first reduction and stutter elimination argued in DESIGN.md 3.1/3.3. "
+            "Bounds: K <= 2-3 updates per incarnation, <= 2-3 incarnations, record split in 2/4/7 chunks; the reader's number of calls is unbounded (fixpoint over its cache states).")
+SEQ_TECH = "stateless model checking of the real ShmWriter/ShmReader under a simulated C11 release/acquire memory model (exhaustive read-from / interleaving / crash-point enumeration, reader states to a fixpoint)"
+CHECKS.update({
+ "C02": dict(engine="seqmc", category="model_checking", technique=SEQ_TECH,
+   text="For every writer trace (initial generations incl. the 16-bit wrap and odd crash-left values, K<=2..3 updates) the real snapshot() is executed for every reader attach point and every read-from choice the C11 RA model allows at each load (all choices for 2 chunks; bounded number of stale reads for 7 words), breadth-first over the reader's cache states to a fixpoint; every returned record must be the empty record or a completed publication. Also with the writer stopped for ever at every point, running retry-exhausting calls in full. This is the property's quantifier (all interleavings x all RA executions) up to the stated bounds.",
+   design_ref="3", note=SEQ_NOTE),
+ "C03": dict(engine="seqmc", category="model_checking", technique=SEQ_TECH,
+   text="Same exploration; publication index returned by successive calls never decreases (RA and SC modes); in SC mode (all interleavings of writer events with reader loads, canonicalised per location) a call all of whose loads are explained by an idle writer position must return the latest completed publication there.",
+   design_ref="3.3, 3.4", note=SEQ_NOTE),
+ "C04": dict(engine="seqmc", category="fault_enumeration", technique=SEQ_TECH + "; crash at every intercepted writer event, restart",
+   text="Two (thorough: three) writer incarnations with a crash after every intercepted event of ShmWriter::new / wipe / write (each file operation of wipe, the version store, each generation store, each record chunk), then a restart; readers attached at every position: (a) only complete records, in order (RA + SC), (b) SC freshness after the restarted daemon's first publication, (c) writer-trace oracles: a valid segment is never wiped/emptied/re-laid-out, an unusable one is attachable and 72 bytes after the first publication; ShmReader::new accepts exactly the file states the documented header rules call valid.",
+   design_ref="3.3, 3.4", note=SEQ_NOTE),
+ "C11": dict(engine="seqmc", category="model_checking", technique="explicit-state closure over (generation, idle/in-flight) with the successor relation computed by the real ShmWriter::write for all 65535 start values x crash points",
+   text="All 65535 non-zero start generations x {complete update, crash after each of the 4 events of an update followed by a restart and a full update}, plus the histories from a freshly wiped segment: in the file as a third-party reader sees it the generation is odd at every position inside an update, the record is only modified while it is odd, it is even, non-zero and changed after the update, 0 is never visible after the first publication, the wrap continues at 2. Because every value is a start value, the invariant is inductive; the reachable closure from the wiped segment is reported as states/transitions.",
+   design_ref="3.5", note="Trusted base: interception layer as for C02; file snapshots after every event. Exhaustive over the 16-bit generation domain."),
+ "C18": dict(engine="seqmc", category="model_checking", technique=SEQ_TECH,
+   text="The writer stops for ever at every position of every trace (RA with bounded stale reads, SC with all interleavings); every snapshot() call of every reader must return after at most 5e6 record copies; a call that finds an update in flight (odd or zero generation, version 0) must answer Ok from its previous snapshot within 64 loads. Calls that spin on a dead writer are really executed to the end of the retry budget once per distinct signature and otherwise cut after 3000 identical iterations. Plus a directed free-running run against a continuously updating writer (labelled non-exhaustive).",
+   design_ref="3.3, 3.4", note=SEQ_NOTE),
+})
+
 NOT_APPLICABLE = {}
 
 def main():
